@@ -788,6 +788,185 @@ theorem C15_file_deleted_refused (c : Cfg) (s : FileState) (ops : List FileOp)
     { c with userToEmail := (s.run (ops ++ [.reload])).table } u a nu [] hnu _ (by simp)
   simp [FileState.table, C15_file_reload_absent s ops h, fileTable, tableEntries, fileLookup]
 
+/-! ## table.chain as an entitlement table: the answer is the composition of the step tables
+
+`StepRel t k v`: the step table `t` gives `v` for `k`.  `Comp steps k v`: `v` is reached from `k` by ONE
+application of every step in order, an `optional_step` possibly left out.  Order and multiplicity of the
+answer list mean nothing for entitlement (`Entitled` asks for membership only), so the theorems speak
+about membership. -/
+
+def StepRel (t : Table) (k v : Str) : Prop := ∃ vs, tableEntries t k = .ok vs ∧ v ∈ vs
+
+def Comp : List (Bool × Table) → Str → Str → Prop
+  | [], k, v => v = k
+  | (opt, t) :: rest, k, v => (∃ m, StepRel t k m ∧ Comp rest m v) ∨ (opt = true ∧ Comp rest k v)
+
+/-- the composition without leaving out any step -/
+def CompAll : List (Bool × Table) → Str → Str → Prop
+  | [], k, v => v = k
+  | (_, t) :: rest, k, v => ∃ m, StepRel t k m ∧ CompAll rest m v
+
+/-- the inner loop, when no key is without a mapping: the answer holds exactly the values the table gives
+for the keys, and every key has a value. -/
+theorem stepKeys_some (t : Table) (keys r : List Str) (h : stepKeys t keys = .ok (some r)) :
+    (∀ v, v ∈ r ↔ ∃ k ∈ keys, StepRel t k v) ∧ ∀ k ∈ keys, ∃ v, StepRel t k v := by
+  induction keys generalizing r with
+  | nil =>
+    simp [stepKeys] at h
+    subst h
+    simp
+  | cons k ks ih =>
+    unfold stepKeys at h
+    split at h
+    · simp at h
+    · simp at h
+    · rename_i v vs hk
+      split at h
+      · simp at h
+      · simp at h
+      · rename_i r' hr'
+        cases h
+        have ⟨ih1, ih2⟩ := ih r' hr'
+        constructor
+        · intro x
+          constructor
+          · intro hx
+            rcases List.mem_append.mp hx with hx | hx
+            · exact ⟨k, by simp, v :: vs, hk, hx⟩
+            · obtain ⟨k', hk', hrel⟩ := (ih1 x).mp hx
+              exact ⟨k', by simp [hk'], hrel⟩
+          · rintro ⟨k', hk', vs', hvs', hx⟩
+            rcases List.mem_cons.mp hk' with rfl | hk'
+            · rw [hk] at hvs'
+              cases hvs'
+              exact List.mem_append.mpr (Or.inl hx)
+            · exact List.mem_append.mpr (Or.inr ((ih1 x).mpr ⟨k', hk', vs', hvs', hx⟩))
+        · intro k' hk'
+          rcases List.mem_cons.mp hk' with rfl | hk'
+          · exact ⟨v, v :: vs, hk, by simp⟩
+          · exact ih2 k' hk'
+
+/-- **table.chain, soundness.**  Every value of the answer is reached from one of the keys through the
+step tables, one application per step (optional steps possibly left out): nothing a step's table gives
+only for ANOTHER step's output — or for its own output — gets in. -/
+theorem C15_chain_answer_is_composition (steps : List (Bool × Table)) (keys r : List Str)
+    (h : chainLookup steps keys = .ok r) : ∀ v ∈ r, ∃ k ∈ keys, Comp steps k v := by
+  induction steps generalizing keys r with
+  | nil =>
+    simp [chainLookup] at h
+    subst h
+    intro v hv
+    exact ⟨v, hv, rfl⟩
+  | cons st rest ih =>
+    obtain ⟨opt, t⟩ := st
+    unfold chainLookup at h
+    split at h
+    · simp at h
+    · split at h
+      · rename_i hopt
+        intro v hv
+        obtain ⟨k, hk, hc⟩ := ih keys r h v hv
+        exact ⟨k, hk, Or.inr ⟨hopt, hc⟩⟩
+      · simp at h
+        subst h
+        intro v hv
+        simp at hv
+    · rename_i r1 hr1
+      intro v hv
+      obtain ⟨m, hm, hc⟩ := ih r1 r h v hv
+      obtain ⟨k, hk, hrel⟩ := ((stepKeys_some t keys r1 hr1).1 m).mp hm
+      exact ⟨k, hk, Or.inl ⟨m, hrel, hc⟩⟩
+
+/-- **table.chain, completeness.**  With `step` directives only, a non-empty answer holds EVERY value of the
+composition: no value reached through the tables is lost. -/
+theorem C15_chain_answer_is_whole_composition (steps : List (Bool × Table)) (keys r : List Str)
+    (hno : ∀ st ∈ steps, st.1 = false) (h : chainLookup steps keys = .ok r) (hne : r ≠ []) :
+    ∀ k ∈ keys, ∀ v, CompAll steps k v → v ∈ r := by
+  induction steps generalizing keys r with
+  | nil =>
+    simp [chainLookup] at h
+    subst h
+    intro k hk v hv
+    simp [CompAll] at hv
+    subst hv
+    exact hk
+  | cons st rest ih =>
+    obtain ⟨opt, t⟩ := st
+    have hopt : opt = false := hno (opt, t) (by simp)
+    subst hopt
+    unfold chainLookup at h
+    split at h
+    · simp at h
+    · simp at h
+      exact absurd h hne
+    · rename_i r1 hr1
+      intro k hk v hv
+      obtain ⟨m, hrel, hc⟩ := hv
+      have hm : m ∈ r1 := ((stepKeys_some t keys r1 hr1).1 m).mpr ⟨k, hk, hrel⟩
+      exact ih r1 r (fun st hst => hno st (by simp [hst])) h hne m hm v hc
+
+/-- a `step` that has no value for one of the keys: the lookup answers nothing -/
+theorem C15_chain_step_without_mapping (t : Table) (rest : List (Bool × Table)) (keys : List Str)
+    (h : stepKeys t keys = .ok none) : chainLookup ((false, t) :: rest) keys = .ok [] := by
+  simp [chainLookup, h]
+
+/-- an `optional_step` that has no value for one of the keys is left out as a whole -/
+theorem C15_chain_optional_step_left_out (t : Table) (rest : List (Bool × Table)) (keys : List Str)
+    (h : stepKeys t keys = .ok none) : chainLookup ((true, t) :: rest) keys = chainLookup rest keys := by
+  simp [chainLookup, h]
+
+/-- **C15 with a chain as `user_to_email`.**  A clean envelope result means: the client is authenticated and
+some value the composition of the step tables gives the normalised user name covers a prepared form of the
+sender. -/
+theorem C15_chain_envelope_pass_implies_reached_entry (c : Cfg) (steps : List (Bool × Table)) (u mailFrom : Str)
+    (hc : c.userToEmail = chainTable steps)
+    (h : (checkSender c (some u) mailFrom).reason = none) :
+    u ≠ [] ∧ ∃ nu na ps e, c.authNorm u = some nu ∧ c.fromNorm mailFrom = some na ∧
+      prepared c.emailPrepare na = .ok ps ∧ Comp steps nu e ∧ ∃ p ∈ ps, Covers e p := by
+  obtain ⟨hu, nu, na, ps, es, hnu, hna, hps, hes, p, hp, e, he, hcov⟩ := C15_envelope_pass_implies_entitled c u mailFrom h
+  refine ⟨hu, nu, na, ps, e, hnu, hna, hps, ?_, p, hp, hcov⟩
+  rw [hc] at hes
+  simp only [chainTable, tableEntries] at hes
+  obtain ⟨k, hk, hcomp⟩ := C15_chain_answer_is_composition steps [nu] es hes e he
+  simp at hk
+  subst hk
+  exact hcomp
+
+/-! ## the identity of the session (SASL PLAIN) -/
+
+/-- **The identity authorize_sender is shown is the account whose password was verified.**  An accepted
+AUTH PLAIN exchange makes the login name itself the session's user, and the password was verified for the
+normal form of that name — whatever authorization identity the client sent. -/
+theorem C15_session_identity_is_the_authenticated_one (norm : Str → Option Str) (verify : Str → Str → Bool)
+    (authzid authcid password user : Str) (h : saslPlain norm verify authzid authcid password = some user) :
+    user = authcid ∧ ∃ name, norm authcid = some name ∧ verify name password = true := by
+  cases hn : norm authcid with
+  | none => simp [saslPlain, hn] at h
+  | some name =>
+    by_cases hv : verify name password = true
+    · refine ⟨?_, name, rfl, hv⟩
+      by_cases hz : authzid.isEmpty = true
+      · simp [saslPlain, hn, hv, hz] at h
+        exact h.symm
+      · simp [saslPlain, hn, hv, hz] at h
+        obtain ⟨h1, h2⟩ := h
+        rw [← h2, h1]
+    · simp [saslPlain, hn, hv] at h
+
+/-- another account's name (or any other spelling of the own one) as authorization identity is refused -/
+theorem C15_foreign_authorization_identity_refused (norm : Str → Option Str) (verify : Str → Str → Bool)
+    (authzid authcid password : Str) (hne : authzid ≠ []) (hd : authzid ≠ authcid) :
+    saslPlain norm verify authzid authcid password = none := by
+  unfold saslPlain
+  have : authzid.isEmpty = false := by cases authzid <;> simp_all
+  simp [this, hd]
+
+/-- so the decision of the check for the session is the decision for the login name -/
+theorem C15_session_decides_for_the_login_name (c : Cfg) (norm : Str → Option Str) (verify : Str → Str → Bool)
+    (authzid authcid password user mailFrom : Str) (h : saslPlain norm verify authzid authcid password = some user) :
+    checkSender c (some user) mailFrom = checkSender c (some authcid) mailFrom := by
+  rw [(C15_session_identity_is_the_authenticated_one norm verify authzid authcid password user h).1]
+
 /-! ## non-vacuity: concrete configurations and messages -/
 
 section Examples
@@ -925,6 +1104,35 @@ example : checkSender (exFileCfg (exFile.run [.write [], .reload, .write [(s "al
 -- the hypotheses of `C15_file_withdrawn_refused` are satisfiable (alice's line given to bob)
 example : (exFile.run [.write [(s "bob", [s "alice@example.org"])]]).file = .entries [(s "bob", [s "alice@example.org"])] ∧
     ∀ e ∈ fileLookup [(s "bob", [s "alice@example.org"])] (s "alice"), e = [] := ⟨rfl, by decide⟩
+
+/-! table.chain: accounts → groups, then one level of delegation (whose values are again its keys) -/
+def chAccounts : Table := .multi fun k =>
+  if k == s "alice" then .ok [s "alice@example.org", s "info@example.org"] else .ok []
+def chDeleg : Table := .multi fun k =>
+  if k == s "alice@example.org" then .ok [s "alice@example.org", s "a.smith@example.org"]
+  else if k == s "info@example.org" then .ok [s "info@example.org", s "sales@example.org"]
+  else if k == s "a.smith@example.org" then .ok [s "a.smith@example.org", s "ceo-office@example.org"]
+  else .ok []
+def chSteps : List (Bool × Table) := [(false, chAccounts), (false, chDeleg)]
+def chCfg : Cfg := { exCfg with userToEmail := chainTable chSteps }
+example : chainLookup chSteps [s "alice"] =
+    .ok [s "alice@example.org", s "a.smith@example.org", s "info@example.org", s "sales@example.org"] := rfl
+example : checkSender chCfg (some (s "alice")) (s "sales@example.org") = pass := by decide
+example : checkSender chCfg (some (s "alice")) (s "info@example.org") = pass := by decide
+-- a.smith's own delegation is NOT alice's: one application per step
+example : checkSender chCfg (some (s "alice")) (s "ceo-office@example.org") = refuse exCfg .noMatch := by decide
+-- a key without a mapping: `step` answers nothing, `optional_step` is left out
+example : chainLookup [(false, chAccounts), (false, chDeleg), (false, chDeleg)] [s "alice"] = .ok [] := rfl
+example : chainLookup [(false, chAccounts), (false, chDeleg), (true, chDeleg)] [s "alice"] = chainLookup chSteps [s "alice"] := rfl
+-- the hypotheses of the completeness theorem are satisfiable
+example : (∀ st ∈ chSteps, st.1 = false) ∧ ∃ r, chainLookup chSteps [s "alice"] = .ok r ∧ r ≠ [] :=
+  ⟨by decide, _, rfl, by decide⟩
+-- SASL PLAIN: the own name or nothing as authorization identity; a case variant is another identity
+def exVerify (name pw : Str) : Bool := name == pw
+example : saslPlain some exVerify [] (s "admin") (s "admin") = some (s "admin") := by decide
+example : saslPlain some exVerify (s "admin") (s "admin") (s "admin") = some (s "admin") := by decide
+example : saslPlain some exVerify (s "Admin") (s "admin") (s "admin") = none := by decide
+example : saslPlain some exVerify [] (s "Admin") (s "admin") = none := by decide
 
 end Examples
 
